@@ -137,6 +137,35 @@ def index_routes(o):
     return [('INDEX', '=INDEX(%s,%d,%d)' % (lit, r, c), None, want, shape)]
 
 
+def table_routes(o):
+    R, C, col = o['vec']
+    key, mode = o['key'], o['mode']
+
+    def cell(i, j):
+        return {'k': 'n', 'n': 2 * i if j == 1 else 100 + 10 * i + j, 'd': 1, 'e': 0}
+    tab = [[cell(i, j) for j in range(1, C + 1)] for i in range(1, R + 1)]
+    e = o['exp']
+    if e['k'] == 'elem':
+        want = tab[e['i'] - 1][e['j'] - 1]
+    elif e['k'] == 'na':
+        want = V.E('NA')
+    elif e['k'] == 'ref':
+        want = V.E('REF')
+    else:
+        want = {'k': 'any', 'of': [V.E('NA'), V.E('REF')]}
+    flag = 'TRUE' if mode == 1 else 'FALSE'
+    vt = '{%s}' % ';'.join(','.join(V.lit(x) for x in row) for row in tab)
+    ht = '{%s}' % ';'.join(','.join(V.lit(tab[i][j]) for i in range(R)) for j in range(C))
+    out = [('VLOOKUP/table', '=VLOOKUP(%s,%s,%d,%s)' % (V.lit(key), vt, col, flag), None, want),
+           ('HLOOKUP/table', '=HLOOKUP(%s,%s,%d,%s)' % (V.lit(key), ht, col, flag), None, want)]
+    # the same table through a referenced range
+    ref = 'A1' if (R, C) == (1, 1) else 'A1:%s%d' % (chr(64 + C), R)
+    vals = [[V.cellval(x) for x in row] for row in tab]
+    vals = [[v[0][0] if isinstance(v, list) else v for v in row] for row in vals]
+    out.append(('VLOOKUP/range', '=VLOOKUP(%s,%s,%d,%s)' % (V.lit(key), ref, col, flag), {ref: vals}, want))
+    return out
+
+
 def _shard(items):
     impl.F()
     from .c05 import rect_ref
@@ -146,6 +175,8 @@ def _shard(items):
             routes = match_routes(o)
         elif o['kind'] == 'countif':
             routes = countif_routes(o)
+        elif o['kind'] == 'table':
+            routes = table_routes(o)
         else:
             routes = index_routes(o)
         for rt in routes:
@@ -196,9 +227,9 @@ def main():
     rnd = random.Random(seed() * 19 + 7)
     rnd.shuffle(obl)
     if not thorough:
-        idx = [o for o in obl if o['kind'] == 'index']
-        rest = [o for o in obl if o['kind'] != 'index']
-        obl = idx + rest[:9000]
+        idx = [o for o in obl if o['kind'] in ('index', 'table')]
+        rest = [o for o in obl if o['kind'] not in ('index', 'table')]
+        obl = idx[:4000] + rest[:9000]
     res = []
     for part in pmap(_shard, shards(obl, NCPU * 4), chunk=1):
         res.extend(part)
@@ -208,7 +239,8 @@ def main():
         if not ok:
             rep.violation({'kind': name, 'formula': formula, 'got': got},
                           {'function': name, 'formula': formula, 'expected': want, 'observed': got,
-                           'vector': [V.show(x) for x in o['vec']] if kind != 'index' else o['vec'],
+                           'vector': [V.show(x) for x in o['vec']] if kind not in ('index', 'table')
+                           else o['vec'],
                            'key': V.show(o['key']), 'mode': o['mode'],
                            'how': "Cell('Z50', formula) with the referenced ranges supplied"})
     rep.traces(len(res))
@@ -218,7 +250,9 @@ def main():
                        '<= 4 (also with one element of another type inserted), arbitrary mixed '
                        'vectors of length <= 3 for exact mode, 17 keys (inside, outside, between, '
                        'other type, wild cards); 6 operators x 5 operands for the criteria; INDEX '
-                       'on all shapes <= 3x3 with row / column 0..4; distinct by (function case)')
+                       'on all shapes <= 6x6 with row / column 1..7; VLOOKUP / HLOOKUP on tables '
+                       'of all shapes <= 6x6, every key inside / between / outside, every column '
+                       'up to one past the table, both modes; distinct by (function case)')
     rep.cov['exhaustive'] = thorough
     return rep.finish()
 
